@@ -289,12 +289,13 @@ Proof.
   rewrite strip_app_both, H. reflexivity.
 Qed.
 
-Lemma header_sem cmd suf :
+Lemma header_reads cmd suf :
   name_ok cmd -> forallb is_name_char (list_ascii_of_string suf) = true -> no_nl suf = true ->
-  strip "_cmd_" suf = None ->
-  line_sem cmd (append "_" (append cmd (append suf " () {"))) (Some (SFunc (append "_" (append cmd suf)))).
+  no_nl (append "_" (append cmd (append suf " () {"))) = true
+  /\ forall rest, bash_stmt (append (append "_" (append cmd (append suf " () {"))) (append nl rest))
+                  = Some (SFunc (append "_" (append cmd suf)), rest).
 Proof.
-  intros Hc Hsuf Hnl Hs. split; [|split].
+  intros Hc Hsuf Hnl. split.
   - cbn [append no_nl]. rewrite !no_nl_app, (name_ok_no_nl _ Hc), Hnl. reflexivity.
   - intros rest. unfold bash_stmt, bz_stmt. rewrite !append_assoc.
     rewrite alt_skip by reflexivity. rewrite alt_skip by reflexivity. rewrite alt_skip by reflexivity.
@@ -310,7 +311,15 @@ Proof.
       destruct Hc as [Hne _]. destruct cmd; [congruence | reflexivity]. }
     rewrite (pbind_some _ _ _ _ _ N1). erewrite pbind_lit' by reflexivity.
     rewrite (pbind_some _ _ _ _ _ (eol_nl rest)). reflexivity.
-  - apply is_cmd_fn_suffix. exact Hs.
+Qed.
+
+Lemma header_sem cmd suf :
+  name_ok cmd -> forallb is_name_char (list_ascii_of_string suf) = true -> no_nl suf = true ->
+  strip "_cmd_" suf = None ->
+  line_sem cmd (append "_" (append cmd (append suf " () {"))) (Some (SFunc (append "_" (append cmd suf)))).
+Proof.
+  intros Hc Hsuf Hnl Hs. destruct (header_reads cmd suf Hc Hsuf Hnl) as [H1 H2].
+  split; [exact H1|]. split; [exact H2|]. apply is_cmd_fn_suffix. exact Hs.
 Qed.
 
 (** ** units: maximal pieces of the skeleton that begin and end at line boundaries *)
@@ -586,3 +595,103 @@ Proof. unit_tac command Hc Hnl idtac. Qed.
 Lemma U_main16_scans : unit_scans command U_main16 [].
 Proof. unit_tac command Hc Hnl idtac. Qed.
 End MainUnits.
+
+(** ** composing: [scans n text sts] = the scanner reads [text] (followed by anything) as [sts],
+    using [n] steps of fuel, and [text] is at least [n] characters long *)
+Definition scans (cmd : string) (n : nat) (text : string) (sts : list stmt) : Prop :=
+  (n <= String.length text)%nat
+  /\ forall k rest, scan (n + k) Bash cmd (append text rest) = sts ++ scan k Bash cmd rest.
+
+Lemma scans_nil cmd : scans cmd 0 EmptyString [].
+Proof. split; [apply Nat.le_refl | reflexivity]. Qed.
+
+Lemma scans_app cmd n1 t1 s1 n2 t2 s2 :
+  scans cmd n1 t1 s1 -> scans cmd n2 t2 s2 -> scans cmd (n1 + n2) (append t1 t2) (s1 ++ s2).
+Proof.
+  intros [L1 H1] [L2 H2]. split.
+  - rewrite length_app. lia.
+  - intros k rest. rewrite append_assoc, <- Nat.add_assoc, H1, H2, app_assoc. reflexivity.
+Qed.
+
+Lemma length_unlines_ge ls : (List.length ls <= String.length (unlines ls))%nat.
+Proof.
+  induction ls as [|l ls IH]; [apply Nat.le_refl|]. unfold unlines in *. cbn [map sconcat List.length].
+  rewrite !length_app. cbn [String.length nl]. change (String.length nl) with 1%nat. lia.
+Qed.
+
+Lemma unit_scans_scans cmd env u sts :
+  last (tpl_lines_go [] u) [Text "x"] = [] ->
+  unit_scans_env cmd env u sts -> scans cmd (List.length (region_lines u)) (render env u) sts.
+Proof.
+  intros Hl H. split; [|exact H]. rewrite (render_region env u Hl). unfold render_lines.
+  rewrite <- (map_length (render env) (region_lines u)). apply length_unlines_ge.
+Qed.
+
+(** the lines read by the lemmas of BashCodec.v ([reads_as]: the line includes its newline) *)
+Lemma reads_scans cmd lines stmts :
+  Forall2 reads_as lines stmts -> scans cmd (List.length stmts) (sconcat lines) stmts.
+Proof.
+  intros H. split; [|intros k rest; apply scan_lines; exact H].
+  induction H as [|ln st lines stmts [Hne _] _ IH]; [apply Nat.le_refl|]. cbn [sconcat List.length].
+  rewrite length_app. destruct ln; [congruence|]. cbn [String.length]. lia.
+Qed.
+
+Lemma scans_line cmd l o : line_sem cmd l o -> scans cmd 1 (append l nl) (stmts_of [o]).
+Proof.
+  intros H. split.
+  - rewrite length_app. change (String.length nl) with 1%nat. lia.
+  - intros k rest. pose proof (scan_lines_sem cmd [l] [o] (Forall2_cons _ _ H (Forall2_nil _)) k rest) as E.
+    unfold unlines in E. cbn [map sconcat] in E. rewrite QuoteRT.append_nil_r in E. exact E.
+Qed.
+
+(** ** the function of an external command: header, body, closing brace, blank line *)
+Lemma join_lines_join l : join_lines l = join nl l.
+Proof. induction l as [|x [|y l] IH]; [reflexivity | reflexivity |]. cbn [join_lines join] in *. rewrite IH. reflexivity. Qed.
+
+Definition body_ok (body : string) : Prop :=
+  forallb (fun l => negb (String.eqb l "}")) (split_nl body) = true.
+
+Lemma split_nl_no_nl s : forallb no_nl (split_nl s) = true.
+Proof.
+  induction s as [|c t IH]; [reflexivity|]. cbn [split_nl]. destruct (Ascii.eqb c nl_char) eqn:E.
+  - cbn. exact IH.
+  - destruct (split_nl t) as [|x r]; cbn in *; [rewrite E; reflexivity|].
+    apply andb_prop in IH. destruct IH as [H1 H2]. rewrite E, H1, H2. reflexivity.
+Qed.
+
+Lemma body_lines_unlines ls T :
+  forallb no_nl ls = true -> forallb (fun l => negb (String.eqb l "}")) ls = true ->
+  forall fuel, (List.length ls < fuel)%nat ->
+  body_lines fuel "}" (append (unlines ls) (append "}" (append nl T))) = Some (ls, T).
+Proof.
+  induction ls as [|l ls IH]; intros Hn Hb fuel Hf.
+  - destruct fuel; [lia|]. cbn [unlines map sconcat append body_lines].
+    change (line (String "}" (nl ++ T))) with (line ("}" ++ nl ++ T))%string. rewrite (line_app "}" T eq_refl).
+    reflexivity.
+  - destruct fuel; [cbn in Hf; lia|]. cbn [forallb] in Hn, Hb. apply andb_prop in Hn, Hb.
+    destruct Hn as [Hn1 Hn2], Hb as [Hb1 Hb2]. unfold unlines. cbn [map sconcat]. rewrite !append_assoc.
+    cbn [body_lines]. rewrite (line_app l _ Hn1). apply negb_true_iff in Hb1. rewrite Hb1.
+    destruct (l ++ nl ++ sconcat (map (fun x => x ++ nl) ls) ++ "}" ++ nl ++ T)%string eqn:E;
+      [destruct l; discriminate E|].
+    change (sconcat (map (fun x => x ++ nl) ls))%string with (unlines ls).
+    rewrite (IH Hn2 Hb2 fuel) by (cbn in Hf; lia). reflexivity.
+Qed.
+
+Lemma unlines_split body : unlines (split_nl body) = append body nl.
+Proof.
+  pose proof (join_split_nl body) as H. pose proof (split_nl_nonempty body) as Hne.
+  destruct (split_nl body) as [|x l]; [congruence|]. clear Hne. rewrite <- H. clear H.
+  revert x. induction l as [|y l IH]; intros x.
+  - unfold unlines. cbn [map sconcat join]. rewrite QuoteRT.append_nil_r. reflexivity.
+  - specialize (IH y). unfold unlines in *. cbn [map sconcat] in *. rewrite join_cons2, !append_assoc.
+    rewrite !append_assoc in IH. f_equal. f_equal. exact IH.
+Qed.
+
+Lemma is_cmd_fn_true cmd id : is_cmd_fn cmd (append "_" (append cmd (append "_cmd_" (sN id)))) = true.
+Proof.
+  unfold is_cmd_fn. rewrite <- (append_assoc "_" cmd "_cmd_"), <- (append_assoc "_" cmd (append "_cmd_" (sN id))).
+  rewrite <- (append_assoc (append "_" cmd) "_cmd_" (sN id)). rewrite strip_app.
+  pose proof (take_digits_uint (N.to_uint id) EmptyString I) as T. rewrite QuoteRT.append_nil_r in T.
+  Transparent sN. unfold sN at 1. rewrite T. fold (sN id). Opaque sN.
+  destruct (sN_nonempty id) as [c [s' E]]. rewrite E. reflexivity.
+Qed.
